@@ -914,6 +914,21 @@ impl StepOracle for NoFreeValueOracle {
         if d_w.is_negative() && d_w < -rf::qfrac(1, 2) {
             tags.push("user_lost_rounding");
         }
+        // the bank's side of the same operation: what leaves the liquidity vault (a transfer-fee mint withholds part
+        // of it on the way to the user) is at most what the position was debited
+        if matches!(c.a, Action::Withdraw { .. } | Action::Borrow { .. }) {
+            let v0 = world::token_amount(&c.pre.s, &bh.lv) as i128;
+            let v1 = world::token_amount(c.post, &bh.lv) as i128;
+            let paid_out = rf::qi(v0 - v1);
+            let debited = -d_pos.clone();
+            if paid_out > debited.clone() + allow.clone() {
+                out.push(Violation {
+                    clause: "C03.no_gain".into(),
+                    detail: format!("{:?}: the liquidity vault paid out {} native units for a position debit of {:.9} (the user's token account received {})", c.a, v0 - v1, rf::qf64(&debited), t1 - t0),
+                });
+            }
+            tags.push("vault_side_checked");
+        }
         if d_w > allow {
             out.push(Violation {
                 clause: "C03.no_gain".into(),
